@@ -2,11 +2,36 @@
 (* Observable layer of property C22 (harness/src/bin/preempt.rs, built with the *)
 (* preemptive feature).  Per scheduling thread: a busy coroutine (co 1) that     *)
 (* computes for about 45 ms without yielding - in the Running state or inside a  *)
-(* syscall state - and a quick coroutine (co 2) that is ready behind it.         *)
-(*   not_preempted      the busy Running coroutine finished its whole            *)
-(*                      computation (>= 30 ms) before the quick one ever ran     *)
-(*   syscall_preempted  the busy coroutine was suspended while in its syscall    *)
-(*                      state                                                    *)
+(* syscall state - and a quick coroutine (co 2) that is ready behind it; many    *)
+(* short coroutines in the stress scenarios.  Schedulers steal from each other,  *)
+(* so `own` is the thread that created a coroutine and `on` the scheduling       *)
+(* thread that executes the recorded step.                                       *)
+(*                                                                               *)
+(* The clauses are order-based (they follow Monitor.tla's actions Scan, the      *)
+(* signal in flight and Deliver), so that a machine too busy to schedule the     *)
+(* monitor thread cannot make them fire:                                         *)
+(*   monitor_skipped    Monitor!Scan: a scan that began after the busy           *)
+(*                      coroutine's node was in the set and ran its expiry test  *)
+(*                      more than a slice (10 ms + 1 ms) after the node was made *)
+(*                      did not signal the coroutine's thread although the       *)
+(*                      coroutine kept running until the following scan          *)
+(*   signal_ignored     Monitor!Deliver: the monitor signalled the thread on     *)
+(*                      which the busy coroutine was computing in the Running    *)
+(*                      state - the coroutine's state did not change between the *)
+(*                      records made just before and just after the kill, and    *)
+(*                      its computation had not ended - yet the coroutine        *)
+(*                      finished without being suspended afterwards              *)
+(*   sibling_not_run    one scheduling thread: the busy coroutine was suspended  *)
+(*                      but the quick one behind it had not run when the busy    *)
+(*                      one finished                                             *)
+(*   monitor_dead       a Running busy coroutine computed >= 30 ms unsuspended   *)
+(*                      and the monitor made no scan at all in a scenario that   *)
+(*                      lasted >= 300 ms (timing clause; 2-of-3 rule in python)  *)
+(*   syscall_preempted  Monitor!SyscallNeverPreempted: the busy coroutine was    *)
+(*                      suspended while inside its syscall state, or a SIGURG    *)
+(*                      delivered to its thread while it was in the syscall      *)
+(*                      state (sys_sig_b) switched it out: the statement after   *)
+(*                      the signal (sys_sig_e) was never reached                 *)
 (*   result_changed     a preempted computation returned a different result      *)
 (*   co_error           a busy or quick coroutine, which never panics, ended in  *)
 (*                      the Error state                                          *)
@@ -15,41 +40,107 @@
 EXTENDS Naturals, Integers, Sequences, FiniteSets, TLC, Json, IOUtils
 Rec == ndJsonDeserialize(IOEnv.TRACE)
 N == Len(Rec)
-VARIABLES l, scen, busyKind, inBusy, quickSeen, suspended, nthreads, nviol
-vars == <<l, scen, busyKind, inBusy, quickSeen, suspended, nthreads, nviol>>
-Init == l = 1 /\ scen = 0 /\ busyKind = "" /\ inBusy = {} /\ quickSeen = {} /\ suspended = {} /\ nthreads = 0 /\ nviol = 0
+SliceUs == 11000
+
+VARIABLES l, scen, busyKind, nthreads, nviol,
+          inBusy,     \* busy coroutines (by creator) between their busy_b and busy_e records
+          quickSeen,  \* creators whose quick coroutine has run
+          suspended,  \* busy coroutines suspended at least once during their computation
+          first,      \* [own -> [t, on]] first Running period of a busy coroutine in progress (running kind)
+          runOn,      \* [own -> on] busy coroutines currently in the Running state, and where
+          armed,      \* busy coroutines computing in the Running state on a thread the monitor is about to signal
+          owed,       \* busy coroutines whose thread was signalled while they computed in the Running state
+          s1, s2,     \* record times of the last two scans (0 = none)
+          sigs,       \* threads signalled since the last scan
+          nscan, t0, longBusy, sysPend
+vars == <<l, scen, busyKind, nthreads, nviol, inBusy, quickSeen, suspended, first, runOn, armed, owed, s1, s2, sigs, nscan, t0, longBusy, sysPend>>
+
+Init == /\ l = 1 /\ scen = 0 /\ busyKind = "" /\ nthreads = 0 /\ nviol = 0
+        /\ inBusy = {} /\ quickSeen = {} /\ suspended = {} /\ first = <<>> /\ runOn = <<>> /\ armed = {} /\ owed = {}
+        /\ s1 = 0 /\ s2 = 0 /\ sigs = {} /\ nscan = 0 /\ t0 = 0 /\ longBusy = FALSE /\ sysPend = {}
 Viol(clause, detail) == PrintT(<<"VIOL", l, clause, scen, detail>>)
 Count(b) == IF b THEN 1 ELSE 0
+Has(f, k) == k \in DOMAIN f
+Drop(f, k) == [x \in (DOMAIN f) \ {k} |-> f[x]]
+Put(f, k, v) == (k :> v) @@ f
+
 Step ==
   /\ l <= N /\ l' = l + 1
   /\ LET r == Rec[l] ev == r.ev IN
-     CASE ev = "mreset" -> /\ scen' = r.scenario /\ busyKind' = r.busy /\ inBusy' = {} /\ quickSeen' = {} /\ suspended' = {}
-                           /\ nthreads' = r.threads /\ UNCHANGED nviol
-       [] ev = "busy_b" -> inBusy' = inBusy \cup {r.own} /\ UNCHANGED <<scen, busyKind, quickSeen, suspended, nthreads, nviol>>
-       [] ev = "quick" -> quickSeen' = quickSeen \cup {r.own} /\ UNCHANGED <<scen, busyKind, inBusy, suspended, nthreads, nviol>>
+     CASE ev = "mreset" ->
+            /\ scen' = r.scenario /\ busyKind' = r.busy /\ nthreads' = r.threads
+            /\ inBusy' = {} /\ quickSeen' = {} /\ suspended' = {} /\ first' = <<>> /\ runOn' = <<>> /\ armed' = {} /\ owed' = {}
+            /\ s1' = 0 /\ s2' = 0 /\ sigs' = {} /\ nscan' = 0 /\ t0' = r.t /\ longBusy' = FALSE /\ sysPend' = {}
+            /\ UNCHANGED nviol
+       [] ev = "busy_b" ->
+            /\ inBusy' = inBusy \cup {r.own}
+            /\ first' = IF busyKind = "running" THEN Put(first, r.own, [t |-> r.t, on |-> r.on]) ELSE first
+            /\ UNCHANGED <<scen, busyKind, nthreads, nviol, quickSeen, suspended, runOn, armed, owed, s1, s2, sigs, nscan, t0, longBusy, sysPend>>
+       [] ev = "quick" ->
+            /\ quickSeen' = quickSeen \cup {r.own}
+            /\ UNCHANGED <<scen, busyKind, nthreads, nviol, inBusy, suspended, first, runOn, armed, owed, s1, s2, sigs, nscan, t0, longBusy, sysPend>>
        [] ev = "busy_e" ->
-            \* preempted = the busy coroutine itself was suspended at least once while computing (schedulers
-            \* steal from each other, so which thread ran the quick coroutine says nothing when there are several)
-            LET b1 == busyKind = "running" /\ r.ms >= 30 /\ (r.own \notin suspended \/ (nthreads = 1 /\ r.own \notin quickSeen))
+            LET b1 == nthreads = 1 /\ r.own \in suspended /\ r.own \notin quickSeen
                 b2 == ~r.ok
-            IN /\ (b1 => Viol("not_preempted", <<r.own, r.ms>>))
+            IN /\ (b1 => Viol("sibling_not_run", r.own))
                /\ (b2 => Viol("result_changed", r.own))
                /\ nviol' = nviol + Count(b1) + Count(b2) /\ inBusy' = inBusy \ {r.own}
-               /\ UNCHANGED <<scen, busyKind, quickSeen, suspended, nthreads>>
+               /\ longBusy' = (longBusy \/ (busyKind = "running" /\ r.ms >= 30 /\ r.own \notin suspended))
+               /\ armed' = armed \ {r.own}
+               /\ UNCHANGED <<scen, busyKind, nthreads, quickSeen, suspended, first, runOn, owed, s1, s2, sigs, nscan, t0, sysPend>>
+       [] ev = "mon_scan" ->
+            \* the scan before this one (record time s2) is now complete: judge it
+            LET late == {b \in DOMAIN first : s1 >= first[b].t /\ s2 >= first[b].t + SliceUs /\ first[b].on \notin sigs}
+            IN /\ (late # {} => Viol("monitor_skipped", late))
+               /\ nviol' = nviol + Count(late # {})
+               /\ s1' = s2 /\ s2' = r.t /\ sigs' = {} /\ nscan' = nscan + 1
+               /\ UNCHANGED <<scen, busyKind, nthreads, inBusy, quickSeen, suspended, first, runOn, armed, owed, t0, longBusy, sysPend>>
+       [] ev = "mon_sig_b" ->
+            /\ armed' = armed \cup {b \in DOMAIN runOn : runOn[b] = r.own /\ b \in inBusy /\ busyKind = "running"}
+            /\ UNCHANGED <<scen, busyKind, nthreads, nviol, inBusy, quickSeen, suspended, first, runOn, owed, s1, s2, sigs, nscan, t0, longBusy, sysPend>>
+       [] ev = "mon_sig" ->
+            \* the kill lies between the mon_sig_b record and this one
+            LET hit == {b \in armed : Has(runOn, b) /\ runOn[b] = r.own} IN
+            /\ sigs' = sigs \cup {r.own}
+            /\ owed' = owed \cup hit /\ armed' = armed \ hit
+            /\ UNCHANGED <<scen, busyKind, nthreads, nviol, inBusy, quickSeen, suspended, first, runOn, s1, s2, nscan, t0, longBusy, sysPend>>
        [] ev = "chg" ->
-            LET bad == busyKind = "syscall" /\ r.co = 1 /\ r.own \in inBusy /\ r.new = "Suspend"
-                err == r.new = "Error" IN
-            /\ (bad => Viol("syscall_preempted", r.own))
-            /\ (err => Viol("co_error", <<r.own, r.co, r.msg>>))
-            /\ nviol' = nviol + Count(bad) + Count(err)
-            /\ suspended' = IF r.co = 1 /\ r.own \in inBusy /\ r.new = "Suspend" THEN suspended \cup {r.own} ELSE suspended
-            /\ UNCHANGED <<scen, busyKind, inBusy, quickSeen, nthreads>>
+            LET busy == r.co = 1
+                b == r.own
+                bad == busyKind = "syscall" /\ busy /\ b \in inBusy /\ r.new = "Suspend"
+                err == r.new = "Error"
+                ign == busy /\ r.new \in {"Complete", "Error"} /\ b \in owed
+            IN /\ (bad => Viol("syscall_preempted", b))
+               /\ (err => Viol("co_error", <<b, r.co, r.msg>>))
+               /\ (ign => Viol("signal_ignored", b))
+               /\ nviol' = nviol + Count(bad) + Count(err) + Count(ign)
+               /\ suspended' = IF busy /\ b \in inBusy /\ r.new = "Suspend" THEN suspended \cup {b} ELSE suspended
+               /\ runOn' = IF ~busy THEN runOn ELSE IF r.new = "Running" THEN Put(runOn, b, r.on) ELSE Drop(runOn, b)
+               /\ first' = IF busy /\ Has(first, b) THEN Drop(first, b) ELSE first
+               /\ owed' = IF busy /\ r.new # "Running" THEN owed \ {b} ELSE owed
+               /\ armed' = IF busy THEN armed \ {b} ELSE armed
+               /\ UNCHANGED <<scen, busyKind, nthreads, inBusy, quickSeen, s1, s2, sigs, nscan, t0, longBusy, sysPend>>
+       [] ev = "sys_sig_b" ->
+            /\ sysPend' = sysPend \cup {r.own}
+            /\ UNCHANGED <<scen, busyKind, nthreads, nviol, inBusy, quickSeen, suspended, first, runOn, armed, owed, s1, s2, sigs, nscan, t0, longBusy>>
+       [] ev = "sys_sig_e" ->
+            /\ sysPend' = sysPend \ {r.own}
+            /\ UNCHANGED <<scen, busyKind, nthreads, nviol, inBusy, quickSeen, suspended, first, runOn, armed, owed, s1, s2, sigs, nscan, t0, longBusy>>
        [] ev = "thread_done" ->
             LET bad == r.all < r.want IN
-            /\ (bad => Viol("unfinished", <<r.own, r.all, r.want>>))
-            /\ nviol' = nviol + Count(bad) /\ UNCHANGED <<scen, busyKind, inBusy, quickSeen, suspended, nthreads>>
-       [] ev = "died" -> Viol(r.how, r.msg) /\ nviol' = nviol + 1 /\ UNCHANGED <<scen, busyKind, inBusy, quickSeen, suspended, nthreads>>
-       [] ev = "mend" -> UNCHANGED <<scen, busyKind, inBusy, quickSeen, suspended, nthreads, nviol>>
+            /\ (bad => Viol("unfinished", <<r.th, r.all, r.want>>))
+            /\ nviol' = nviol + Count(bad)
+            /\ UNCHANGED <<scen, busyKind, nthreads, inBusy, quickSeen, suspended, first, runOn, armed, owed, s1, s2, sigs, nscan, t0, longBusy, sysPend>>
+       [] ev = "died" ->
+            /\ Viol(r.how, r.msg) /\ nviol' = nviol + 1
+            /\ UNCHANGED <<scen, busyKind, nthreads, inBusy, quickSeen, suspended, first, runOn, armed, owed, s1, s2, sigs, nscan, t0, longBusy, sysPend>>
+       [] ev = "mend" ->
+            LET dead == longBusy /\ nscan = 0 /\ "t" \in DOMAIN r /\ r.t - t0 >= 300000 IN
+            /\ (dead => Viol("monitor_dead", r.t - t0))
+            /\ (sysPend # {} => Viol("syscall_preempted", sysPend))
+            /\ PrintT(<<"STAT", scen, nscan>>)
+            /\ nviol' = nviol + Count(dead) + Count(sysPend # {})
+            /\ UNCHANGED <<scen, busyKind, nthreads, inBusy, quickSeen, suspended, first, runOn, armed, owed, s1, s2, sigs, nscan, t0, longBusy, sysPend>>
 Spec == Init /\ [][Step]_vars
 Accepted == /\ PrintT(<<"ACCEPT", TLCGet("stats").diameter - 1, N>>)
             /\ TLCGet("stats").diameter - 1 = N
